@@ -172,11 +172,50 @@ def apply_and_check(m, op, spec):
     return out, False
 
 
+def load_free(m, spec):
+    """read the saved absence-free result of the same model into the project object at hand; returns (model, reference logs)"""
+    ref = start_project(spec, ())
+    fd, path = tempfile.mkstemp(prefix="verif-c18-", suffix=".json")
+    os.close(fd)
+    try:
+        ref.project.write_simple_json(path)
+        m.project.read_simple_json(path)
+    finally:
+        os.unlink(path)
+    return S.adopt(m.project), logs(ref)
+
+
 def replay_history(spec, sim_absence, hist):
     m = start_project(spec, sim_absence)
     viol = []
+    free = False  # the project holds a result known to be absence-free (just read from a file written by an absence-free run)
     for k, op in enumerate(hist):
-        base = logs(m) if (op[0] == "insert" and not m.project.absence_time_list) else None
+        if op[0] == "load-free":
+            try:
+                m, ref_logs = load_free(m, spec)
+            except Exception as e:
+                viol.append(("C18:reading-a-saved-result-into-a-used-project-raised:%s" % type(e).__name__, {"k": k, "op": op, "error": repr(e)}))
+                return m, viol, True
+            free = True
+            continue
+        if free and op[0] == "remove":
+            before = logs(m)
+            got, dead = apply_and_check(m, op, spec)
+            after = logs(m) if not dead else None
+            for sig, det in got:
+                det["k"] = k
+                viol.append((sig, det))
+            if not dead:
+                before.pop("absence", None)  # (the bookkeeping list itself is not a log)
+                after.pop("absence", None)
+            if not dead and after != before:
+                d = c10_diff(before, after)
+                viol.append(("C18:remove-changed-an-absence-free-result(read-from-JSON-into-a-used-project):%s" % (d[0][0] if d else "?"), {"k": k, "op": op, "first_difference(path, before, after)": d}))
+            if dead:
+                return m, viol, True
+            continue
+        base = logs(m) if (op[0] == "insert" and (free or not m.project.absence_time_list)) else None
+        free = False
         got, dead = apply_and_check(m, op, spec)
         for sig, det in got:
             det["k"] = k
@@ -236,7 +275,7 @@ def work(chunk):
         sim_absence = tuple(sim_absence)
         m0 = start_project(spec, sim_absence)
         n = m0.project.time
-        ops = [("insert", L) for L in index_lists(n, tier)] + [("remove",)]
+        ops = [("insert", L) for L in index_lists(n, tier)] + [("remove",)] + ([("load-free",)] if label != "subproject" else [])
         frontier = collections.deque([(op,) for op in ops])
         seen = set()
         while frontier:
@@ -263,7 +302,7 @@ def work(chunk):
                 if len(hist) >= 2:
                     # third level: single indices and 'remove' only (the full alphabet is explored on the first two levels)
                     lists = [L for L in lists if len(L) == 1]
-                for op in [("insert", L) for L in lists] + [("remove",)]:
+                for op in [("insert", L) for L in lists] + [("remove",)] + ([("load-free",)] if label != "subproject" and len(hist) < 2 else []):
                     frontier.append(hist + (op,))
         if len(col.samples) < 2:
             col.samples.append({"model": label, "sim_absence": list(sim_absence), "first_level_ops": [list(o) for o in ops[:6]]})
